@@ -57,6 +57,9 @@ func (o *Once) Do(f func()) {
 	}
 	o.setRunning(true)
 	registerOnce(o)
+	// the initialisation is in progress: let the other threads observe this state (a Do that has to wait, a struct
+	// copy taken meanwhile, a reader of the half-built cache)
+	point("once.enter")
 	defer func() {
 		o.done.Store(1)
 		o.setRunning(false)
